@@ -561,7 +561,8 @@ class World:
         for bid, b in self.batches.items():
             if b["state"] not in names or (only is not None and bid != only):
                 continue
-            vals = dict(jobid=bid, name=os.path.basename(b["info"]["script"])[:-3], state=names[b["state"]])
+            vals = dict(jobid=bid, name=os.path.basename(b["info"]["script"])[:-3],
+                        state=b.get("alias") if b["state"] == "RUNNING" and b.get("alias") else names[b["state"]])
             rows.append("".join("%-20s" % vals[f] for f in fmt))
         if only is not None and only not in self.batches:
             return 1, "", "slurm_load_jobs error: Invalid job id specified\n"
